@@ -237,12 +237,17 @@ CrlfStep(s, c, b, e, cause, next) ==
     ELSE IF next = "end" THEN EndBody([s EXCEPT !.pos = @ + 2], c)
     ELSE [s EXCEPT !.pos = @ + 2, !.ph = next]
 
+(* close-delimited body (client only): the body ends when the peer closes.  Bytes beyond the limit are
+   never handed over; the refusal is pronounced when the message ends (an implementation may notice earlier) *)
 UntilCloseStep(s, c, b, e) ==
     LET avail == Len(b) - s.pos
-        tot == s.total + avail
-        s1 == IF avail = 0 THEN s ELSE Take([s EXCEPT !.owed = avail, !.total = tot], b, avail) IN
-    IF tot > s.maxb THEN Reject400(s, "bodysize", c)
-    ELSE IF e THEN EndBody(s1, c) ELSE Block(s1)
+        tot == IF s.total + avail > Huge THEN Huge ELSE s.total + avail
+        s1 == IF avail = 0 THEN s
+              ELSE IF tot > s.maxb THEN [s EXCEPT !.pos = Len(b), !.total = tot]
+              ELSE Take([s EXCEPT !.owed = avail, !.total = tot], b, avail) IN
+    IF ~e THEN Block(s1)
+    ELSE IF tot > s.maxb THEN Reject400(s1, "bodysize", c)
+    ELSE EndBody(s1, c)
 
 Micro(s, c, b, e) ==
     CASE s.ph = "head" -> HeadStep(s, c, b, e)
